@@ -1,6 +1,6 @@
 // C17 / R7 ground facts: symbol-free (concrete) harness, so the run is a complete proof of these facts on the real
 // code: CBMC evaluates IEEE-754 double arithmetic bit-precisely.
-use crate::{Duration, Unit, MJD_J1900, MJD_OFFSET, NANOSECONDS_PER_DAY};
+use crate::{Duration, Unit, MJD_J1900, MJD_OFFSET, NANOSECONDS_PER_DAY, UNIX_REF_EPOCH};
 
 #[kani::proof]
 fn c17_ground_facts() {
@@ -18,4 +18,13 @@ fn c17_ground_facts() {
     let g3b = Unit::Day * 2_415_020.5_f64;
     assert!(g3b.to_parts() == g3.to_parts());
     let _ = Duration::ZERO;
+}
+
+#[kani::proof]
+#[kani::unwind(44)]
+fn c17_ground_unix_ref() {
+    // G5: the UNIX reference epoch (1970-01-01, day 25 567 since 1900-01-01) reads the same in UTC as in TAI:
+    // no IERS leap second before 1972 (the 42-entry table is scanned completely: unwind 44 with unwinding assertions)
+    assert!(UNIX_REF_EPOCH.to_utc_duration().to_parts() == (0, 25_567 * NANOSECONDS_PER_DAY));
+    assert!(UNIX_REF_EPOCH.to_tai_duration().to_parts() == (0, 25_567 * NANOSECONDS_PER_DAY));
 }
